@@ -65,6 +65,8 @@ def all_configs(tier):
     c.append(_base('s1_weekly_mon', weekday='MON', nd=5, bound='1 asset, weekly MON with the session starting on a Monday (the start day is itself a rebalance day), 5 days'))
     c.append(_base('s1_ls', long_only=False, weights={'EQ:A': -1.0}, nd=6, bound='1 asset short, long/short leverage 1.5, weekly WED, 6 days'))
     c.append(_base('s1_two_rebalances', weekday='TUE', nd=8, bound='1 asset, weekly TUE: two rebalances (days 1 and 6) both of which fill, 8 days'))
+    c.append(_base('s1_burnin_sameday', burn_in='2020-01-08 23:59', nd=9,
+                   bound='1 asset, 9 days, weekly WED, burn-in on a rebalance DAY but after that day\'s 21:00 rebalance instant (a date-only cut would admit it)'))
     c.append(_base('s1_burnin_between', burn_in='2020-01-09 00:00', nd=9, bound='1 asset, 9 days, weekly WED, burn-in between two rebalances (the first rebalance must be skipped)'))
     if tier == 'thorough':
         c.append(_base('s3_dynamic_signals', assets=['EQ:A', 'EQ:B', 'EQ:C'], universe='dynamic',
@@ -91,7 +93,7 @@ PROP_CONFIGS = {
     'C16': dict(quick=['s2_dynamic_signals'], thorough=['s2_dynamic_signals', 's3_dynamic_signals']),
     'C19': dict(quick=['s2_entries_on_instant', 's2_entries_minute_late', 's2_entries_never', 's2_entries_after_end'],
                 thorough=['s3_entries', 's2_entries_on_instant', 's2_entries_minute_late', 's2_entries_never', 's2_entries_after_end']),
-    'C14': dict(quick=['s1_weekly', 's1_burnin', 's1_burnin_between', 's1_bah', 's1_weekly_mon'], thorough=['s1_weekly', 's1_burnin', 's1_bah', 's1_burnin_between', 's1_eom', 's1_daily', 's2_weekly', 's1_weekly_fri']),
+    'C14': dict(quick=['s1_weekly', 's1_burnin', 's1_burnin_between', 's1_burnin_sameday', 's1_bah', 's1_weekly_mon'], thorough=['s1_weekly', 's1_burnin', 's1_bah', 's1_burnin_between', 's1_burnin_sameday', 's1_eom', 's1_daily', 's2_weekly', 's1_weekly_fri']),
 }
 
 
